@@ -38,3 +38,14 @@ CLAIMS['C09'] = dict(
          'fetch writes nothing but LRU state; the RAII guard classes and the pthread / fcntl primitives they reach acquire in the mode the table assumes. This holds for every schedule. '
          'Linearizability is argued from the discipline (each operation acts inside one critical section of a readers-writer lock) and is not machine-checked.',
     note='Trusted: the guarded-by table (rules/C09.py), guard API table (vlib/lockset.py), pthread rwlock/mutex semantics, the documented configuration-time use of set_size and the constructor.')
+
+CLAIMS['C17'] = dict(
+    category='other',
+    technique='static analysis: lockset dataflow, resolved-overload inspection, CFG pairing/domination, handler-linearity (min,max) dataflow',
+    text='Decides for booster/lib/aio/src/*.cpp and src/thread_pool.cpp: all event-loop / pool state is touched only under its mutex (explicit unlock/lock window of run_one tracked flow-sensitively); '
+         'handlers and jobs run with the lock released; every completion_handler built from a *stored* handler selects the ownership-taking (non-const&) constructor overload, which releases the source; '
+         'queueing a stored handler is paired with erasing its registration (timers, cancel, I/O dispatch, close); a timer completes with success only on the deadline<=now edge for the earliest timer '
+         'and the unmodified ptime::now() stamp; every completion handler token (parameter or member of a callable object) is consumed exactly once on every path of every async entry point and continuation; '
+         'thread_pool enqueues, notifies unconditionally, runs outside the lock inside catch(...), cancel is true iff erased; cross-thread entry points wake a polling loop; a cancel is dropped only when '
+         'nothing is queued and nothing registered.',
+    note='Trusted: guarded-by tables, std::recursive_mutex / condition_variable semantics, reactor back-ends and the self-pipe. Not decided: liveness/fairness, reactor readiness semantics. io_service::reset() is exempt (documented not thread safe).')
